@@ -221,6 +221,14 @@ func (g *Gen) seedGenesis(gs *GenesisSpec) {
 			p.Tokens = append(p.Tokens, map[string]string{"denom": a + sep + b, "id": c, "name": "t", "desc": "", "uri": "", "uri_hash": "", "data": "", "creator": o, "owner": o, "at": fmt.Sprint(gs.TimeUnix - 6)})
 		}
 	}
+	if r.Chance(0.15) || (g.prop == "C12" || g.prop == "C09") && r.Chance(0.2) {
+		// a denom with well over a hundred tokens (listings beyond any batch or page size somebody may have in mind)
+		o := g.addr(r.Intn(5))
+		p.Denoms = append(p.Denoms, map[string]string{"id": "crowd", "name": "crowd", "symbol": "C", "desc": "", "uri": "", "uri_hash": "", "data": "", "owner": o})
+		for j, n := 0, r.Range(66, 140); j < n; j++ {
+			p.Tokens = append(p.Tokens, map[string]string{"denom": "crowd", "id": fmt.Sprintf("tok%04d", j), "name": "t", "desc": "", "uri": "", "uri_hash": "", "data": "", "creator": o, "owner": []string{o, g.addr(6)}[j%2], "at": fmt.Sprint(gs.TimeUnix - 9)})
+		}
+	}
 	gs.Pnft = p
 	// the planning model must know the seeded state
 	_, m := g.env.BuildGenesisModelOnly(gs)
